@@ -4,9 +4,18 @@
 
 package types
 
+// bloom9 sets exactly the three bits selected by the first three byte pairs of keccak256(item),
+// each pair taken big-endian modulo 2048 (Yellow Paper M3:2048). keccak_last is the ghost record of
+// the digest (crypto/sha3 contracts).
+//@ macro bpair(hi, lo) = pow2(U((uint64(lo) + (uint64(hi) << 8)) & 2047))
+//@ macro bbit0() = bpair(keccak_last[0], keccak_last[1])
+//@ macro bbit2() = bpair(keccak_last[2], keccak_last[3])
+//@ macro bbit4() = bpair(keccak_last[4], keccak_last[5])
 //@ func bloom9
 //@   ensures[C16] result != nil && big(result) >= 0
-//@   loop 1 invariant[C16] (i == 0 || i == 2 || i == 4 || i == 6) && len(b) == 32 && r != nil && big(r) >= 0
+//@   ensures[C16] @bits big(result) == bigor(bigor(bigor(0, bbit0()), bbit2()), bbit4())
+//@   loop 1 invariant[C16] (i == 0 || i == 2 || i == 4 || i == 6) && len(b) == 32 && r != nil && big(r) >= 0 && arr(b) == keccak_last && off(b) == 0
+//@   loop 1 invariant[C16] (i == 0 ==> big(r) == 0) && (i == 2 ==> big(r) == bigor(0, bbit0())) && (i == 4 ==> big(r) == bigor(bigor(0, bbit0()), bbit2())) && (i == 6 ==> big(r) == bigor(bigor(bigor(0, bbit0()), bbit2()), bbit4()))
 //@   nopanic[C16]
 
 // ---- transaction_signing.go (C12) -----------------------------------------------------------
